@@ -492,7 +492,7 @@ def run(ctx, rep):
                 if ext and all(e in gated_syms for e in ext):
                     gated_units.add(unit)
             n = vex_scan(rep, gated_units)
-            rep.floor("C13.R4", "objects disassembled", n, 18)
+            rep.floor("C13.R4", "objects disassembled", n, 14)
             rep.analysed["avx2_gated_units"] = sorted(gated_units)
         else:
             ctx.release(cfg)
